@@ -253,14 +253,14 @@ class _:
                 for seed in range(1 if tier == "quick" else 3):
                     yield dict(alg=alg, var=var, seed=rng.randrange(10**6))
 
-    def _run(self, ttb, alg, data, init, seed, quiet=True, order=None, tol=1e-2):
+    def _run(self, ttb, alg, data, init, seed, quiet=True, order=None, tol=1e-2, apr_iters=(4, 4)):
         np.random.seed(seed)
         p = 0 if quiet else 1
         if alg == "cp_als":
             kw = dict(dimorder=order) if order is not None else {}
             return ttb.cp_als(data, 2, init=init, maxiters=6, printitn=p, stoptol=1e-14, **kw)[0]
         if alg.startswith("cp_apr"):
-            return ttb.cp_apr(data, 2, init=init, algorithm=alg.split("_")[-1], maxiters=4, maxinneriters=4, printitn=p, printinneritn=0 if quiet else 1, stoptol=1e-10)[0]
+            return ttb.cp_apr(data, 2, init=init, algorithm=alg.split("_")[-1], maxiters=apr_iters[0], maxinneriters=apr_iters[1], printitn=p, printinneritn=0 if quiet else 1, stoptol=1e-10)[0]
         if alg == "hosvd":
             kw = dict(dimorder=order) if order is not None else {}
             return ttb.hosvd(data, tol, verbosity=0 if quiet else 10, **kw)
@@ -309,8 +309,20 @@ class _:
                 return
             A = self._run(ttb, alg, dense, init(), 1)
             B = self._run(ttb, alg, dense.to_sptensor(), init(), 1)
-            if not _relclose(_dense_of(ttb, A), _dense_of(ttb, B), 1e-8):
+            # "the same model up to rounding": the Newton variants of CP-APR solve nearly singular row problems (model values
+            # close to zero), where a 1e-16 difference between the dense and the sparse summation order grows by 1e6-1e7 per outer
+            # iteration (measured: 1e-15 after two iterations, 7e-9 after three, 4e-8 after four, same data) -- rounding, not a
+            # different path.  They are therefore compared tightly after ONE outer iteration (no accumulation) and at 1e-5 after
+            # four; a path difference between the representations shows at the first iteration or is far above 1e-5
+            newton = alg in ("cp_apr_pdnr", "cp_apr_pqnr")
+            if not _relclose(_dense_of(ttb, A), _dense_of(ttb, B), 1e-5 if newton else 1e-8):
                 raise Fail(f"dense-vs-sparse:{alg}", f"{case}: max diff {np.abs(_dense_of(ttb, A) - _dense_of(ttb, B)).max()}")
+            if newton:
+                for inner in (1, 4):
+                    A1 = self._run(ttb, alg, dense, init(), 1, apr_iters=(1, inner))
+                    B1 = self._run(ttb, alg, dense.to_sptensor(), init(), 1, apr_iters=(1, inner))
+                    if not _relclose(_dense_of(ttb, A1), _dense_of(ttb, B1), 1e-9):
+                        raise Fail(f"dense-vs-sparse:{alg}", f"{case} one outer iteration, {inner} inner: max diff {np.abs(_dense_of(ttb, A1) - _dense_of(ttb, B1)).max()}")
             if alg.startswith("cp_apr"):
                 # an admissible start that is exactly zero on a non-empty slice (the model vanishes at nonzero data)
                 Z0 = [u.copy() for u in U0]
@@ -319,7 +331,7 @@ class _:
                 zinit = lambda: ttb.ktensor([u.copy() for u in Z0], np.ones(2))
                 A = self._run(ttb, alg, dense, zinit(), 1)
                 B = self._run(ttb, alg, dense.to_sptensor(), zinit(), 1)
-                if not _relclose(_dense_of(ttb, A), _dense_of(ttb, B), 1e-8):
+                if not _relclose(_dense_of(ttb, A), _dense_of(ttb, B), 1e-5 if newton else 1e-8):
                     raise Fail(f"dense-vs-sparse:{alg}:zero-row-start", f"{case}: max diff {np.abs(_dense_of(ttb, A) - _dense_of(ttb, B)).max()}")
         elif var == "printing":
             A = self._run(ttb, alg, dense, init(), 1, quiet=True)
